@@ -46,6 +46,7 @@ type tScenario struct {
 	K, Alpha   int
 	Peers      map[int]tPeer
 	Adds       [][]tContact // one harness thread per batch; batch 0 is the seed set
+	AddOne     []tContact   // one harness thread calling the single-contact API AddNode for each
 	RejectAddr map[int]bool // NodeFilter rejects these addresses
 	RejectID   map[byte]bool
 	RejectData map[string]bool // DataFilter rejects these data values
@@ -361,6 +362,20 @@ func runTraversal(t *testing.T, scn *tScenario, prefix []int, envMode bool) (x e
 				h.mu.Lock()
 				h.learned = append(h.learned, batch...)
 				h.mu.Unlock()
+			}()
+		}
+		if len(scn.AddOne) > 0 {
+			go func() {
+				verifsched.Tag("h:addone")
+				for _, ct := range scn.AddOne {
+					verifsched.Point("api-addone")
+					err := h.op.AddNode(ct.ami())
+					h.mu.Lock()
+					if err == nil {
+						h.learned = append(h.learned, ct)
+					}
+					h.mu.Unlock()
+				}
 			}()
 		}
 		stopper := func(name string) {
